@@ -250,8 +250,29 @@ def case_invariant_order(seed, idx, res):
 def case_siblings(seed, idx, res):
     """every yielded path, re-executed alone with a model of the path as concrete input"""
     rng = random.Random(f"c20-{seed}-sib-{idx}")
-    kind = rng.choice(["single", "single", "calls", "creates"])
-    case = workloads.make_case(kind, rng)
+    kind = rng.choice(["single", "single", "calls", "creates", "concretize"])
+    if kind == "concretize":
+        # a symbolic word becomes usable as a memory offset / return size only on the path that equated it with a constant;
+        # sibling paths must not inherit that knowledge
+        from asm import asm
+
+        K = rng.choice([32, 64, 5, 33])
+        fill = []
+        for off in range(0, 160, 32):
+            fill += [("push", rng.getrandbits(256), 32), off, "MSTORE"]
+        which = rng.randrange(3)
+        if which == 0:
+            toks = fill + [4, "CALLDATALOAD", K, "EQ", "ISZERO", "@other", "JUMPI", 4, "CALLDATALOAD", "MLOAD", 0x200, "MSTORE", 32, 0x200, "RETURN",
+                           ":other", 4, "CALLDATALOAD", "MLOAD", 0x200, "MSTORE", 32, 0x200, "RETURN"]
+        elif which == 1:
+            toks = fill + [4, "CALLDATALOAD", K, "EQ", "@eq", "JUMPI", 4, "CALLDATALOAD", 0, "RETURN", ":eq", 4, "CALLDATALOAD", 0, "RETURN"]
+        else:
+            toks = fill + [4, "CALLDATALOAD", K, "EQ", "@eq", "JUMPI", 36, "CALLDATALOAD", 7, "EQ", "@in", "JUMPI", "STOP", ":in", 4, "CALLDATALOAD", "MLOAD", 0x200, "MSTORE", 32, 0x200, "RETURN",
+                           ":eq", 4, "CALLDATALOAD", "MLOAD", 0x200, "MSTORE", 32, 0x200, "RETURN"]
+        case = diffcore.Case({0x1000: asm(toks)}, ncd=2, label="concretize")
+        res["counters"]["concretization_programs"] += 1
+    else:
+        case = workloads.make_case(kind, rng)
     r = symrun.run_symbolic(case.contracts, target=case.target, ncd=case.ncd)
     if r.crash or r.budget_exceeded or len(r.paths) < 2:
         return
@@ -283,6 +304,10 @@ def case_siblings(seed, idx, res):
             res["counters"]["solo_not_single_path"] += 1
             continue
         sp = solo.paths[0]
+        if p.stuck:
+            # a path that got stuck on a symbolic operand may legitimately complete once the operand is concrete
+            res["counters"]["stuck_with_siblings_skipped"] += 1
+            continue
         same = (sp.error == p.error) and (sp.stuck == p.stuck)
         if same and not p.stuck:
             so = sp.out if isinstance(sp.out, bytes) else None
